@@ -361,6 +361,17 @@ theorem lanczosSvdPost_order (s : Vec α) (uu vt : Mat α) :
     exact sorted_svIndex s
   · simp [lanczosSvdPost, svIndex_length]
 
+/-- `predict` accepts every batch of the right length without negative entry (in particular empty rows) -/
+theorem predictRefused_eq_false (nVec : Nat) (x : Mat α)
+    (hnn : ∀ i j, i < nVec → j < nCol → 0 ≤ mget x i j) : predictRefused nCol nVec nCol x = false := by
+  unfold predictRefused
+  rw [bne_self_eq_false, Bool.false_or, List.any_eq_false]
+  intro i hi
+  rw [List.any_eq_true]
+  rintro ⟨j, hj, hlt⟩
+  have := hnn i j (List.mem_range.mp hi) (List.mem_range.mp hj)
+  exact absurd (of_decide_eq_true hlt) (not_lt.mpr this)
+
 /-! ### PCA -/
 
 theorem pcaMeans_eq (j : Nat) (hj : j < nCol) :
